@@ -151,15 +151,29 @@ func RunScenarios(r *report.Run, scen []Scenario, opt Options) {
 		Exhausted bool             `json:"exhaustive_within_bound"`
 		DevKinds  map[string]int64 `json:"deviation_kinds_taken"`
 	}
-	var stats []stat
+	stats := make([]stat, len(scen))
+	outcomes := make([]map[string]bool, len(scen))
 	var mu sync.Mutex
-	for _, sc := range scen {
-		sc := sc
-		st := stat{Scenario: sc.Cfg.Name, Bound: -1, DevKinds: map[string]int64{}}
-		outcomes := map[string]bool{}
-		for bound := 0; bound <= sc.Bound; bound++ {
+	maxBound := 0
+	for i, sc := range scen {
+		stats[i] = stat{Scenario: sc.Cfg.Name, Bound: -1, DevKinds: map[string]int64{}}
+		outcomes[i] = map[string]bool{}
+		if sc.Bound > maxBound {
+			maxBound = sc.Bound
+		}
+	}
+	stop := false
+	// bounds are completed in order over ALL scenarios, so a deadline only cuts the deepest level
+	for bound := 0; bound <= maxBound && !stop; bound++ {
+		for si := range scen {
+			sc := scen[si]
+			st := &stats[si]
+			if sc.Bound < bound || st.Bound != bound-1 {
+				continue
+			}
 			if opt.Deadline > 0 && time.Since(start) > opt.Deadline {
 				r.NotExhaustive(fmt.Sprintf("deadline before scenario %s bound %d", sc.Cfg.Name, bound))
+				stop = true
 				break
 			}
 			ex := &explore.Explorer{Bound: bound, Workers: par.Workers()}
@@ -180,7 +194,7 @@ func RunScenarios(r *report.Run, scen []Scenario, opt Options) {
 				}
 				c.Outcome = w.Outcome
 				mu.Lock()
-				outcomes[w.Outcome] = true
+				outcomes[si][w.Outcome] = true
 				for _, d := range w.Deviations {
 					st.DevKinds[d]++
 				}
@@ -220,6 +234,7 @@ func RunScenarios(r *report.Run, scen []Scenario, opt Options) {
 					r.Sample(map[string]interface{}{"scenario": sc.Cfg.Name, "choices": c.Choices(), "deviations": w.Deviations, "outcome": w.Outcome, "steps": w.Step})
 				}
 			}
+			t0 := time.Now()
 			s := ex.Explore()
 			st.Execs += s.Executions
 			st.Pruned += s.Pruned
@@ -233,19 +248,27 @@ func RunScenarios(r *report.Run, scen []Scenario, opt Options) {
 			r.Add("choice_points", s.Points)
 			if !s.Completed {
 				r.NotExhaustive(fmt.Sprintf("deadline inside scenario %s bound %d", sc.Cfg.Name, bound))
+				stop = true
 				break
 			}
 			st.Bound = bound
 			st.Exhausted = true
-			if r.NumViolations() > 0 {
-				break // smallest bound with a counterexample is enough
-			}
+			fmt.Printf("scenario %-26s bound %d: execs=%d pruned=%d keys=%d (%.1fs, total %.1fs)\n", st.Scenario, bound, s.Executions, s.Pruned, s.DistinctKeys, time.Since(t0).Seconds(), time.Since(start).Seconds())
 		}
-		st.Outcomes = len(outcomes)
-		r.Add("distinct_outcomes", int64(len(outcomes)))
-		stats = append(stats, st)
-		fmt.Printf("scenario %-28s bound<=%d execs=%d pruned=%d keys=%d outcomes=%d devs=%v (%.1fs)\n", st.Scenario, st.Bound, st.Execs, st.Pruned, st.Keys, st.Outcomes, st.DevKinds, time.Since(start).Seconds())
+		if r.NumViolations() > 0 {
+			break // the smallest bound with a counterexample is enough
+		}
 	}
+	for si := range scen {
+		st := &stats[si]
+		st.Outcomes = len(outcomes[si])
+		r.Add("distinct_outcomes", int64(len(outcomes[si])))
+		if st.Bound < scen[si].Bound && r.NumViolations() == 0 {
+			r.Exhaustive(false)
+		}
+		fmt.Printf("scenario %-26s completed bound %d of %d: execs=%d pruned=%d outcomes=%d devs=%v\n", st.Scenario, st.Bound, scen[si].Bound, st.Execs, st.Pruned, st.Outcomes, st.DevKinds)
+	}
+	r.Exhaustive(true)
 	r.Set("scenarios", stats)
 	// replay self-check: one recorded schedule executed twice must give identical observations
 	if len(scen) > 0 {
